@@ -24,6 +24,20 @@ PRE = ("From Coq Require Import ZArith NArith List PrimFloat.\nImport ListNotati
        "  let g := linspace_f a b n in Nat.eqb (length g) (length e) && forallb (fun xy => feq (fst xy) (snd xy)) (combine g e).\n")
 
 
+PRE_ASM = ("From Coq Require Import ZArith NArith List Bool PrimFloat.\nImport ListNotations.\n"
+           "From RD Require Import Base Lib.Py Model.Digest Model.SeriesAsm.\n"
+           "Definition feqa (a b : float) : bool := Z.eqb (fcode a) (fcode b).\n"
+           "Fixpoint leq {A} (e : A -> A -> bool) (a b : list A) : bool := match a, b with [] , [] => true | x :: a', y :: b' => e x y && leq e a' b' | _, _ => false end.\n"
+           "Definition chka (c : list (list (str * float)) * list (str * list float)) : bool := let '(ps, cols) := c in\n"
+           "  leq (fun x y => s_eqb (fst x) (fst y) && leq feqa (snd x) (snd y)) (assemble ps) cols.\n")
+
+
+def asm_term(points, cols, data):
+    ps = "[" + "; ".join("[" + "; ".join(f"({Q.cstr(k)}, {Q.fhex(float.fromhex(v))})" for k, v in p) + "]" for p in points) + "]"
+    cs = "[" + "; ".join(f"({Q.cstr(k)}, [" + "; ".join(Q.fhex(float.fromhex(v)) for v in data[k]) + "])" for k in cols) + "]"
+    return f"({ps}, {cs})"
+
+
 def series_stream(rng, thorough, streams, viol, samples):
     names, stable = U.dataset_names()
     radio = [n for n, s in zip(names, stable) if not s]
@@ -73,7 +87,7 @@ def series_stream(rng, thorough, streams, viol, samples):
                       "scale": "linear", "tmax": float(rng.choice([2.0, 5.0, 40.0])).hex(), "npoints": 3, "explicit": None, "plot": True, "display": "all",
                       "order": "dataset", "yscale": "log", "ymin": float(0.0).hex(), "ymax": None, "xmin": float(0.0).hex()})
     impl = U.run_impl("impl_series.py", cases, timeout=6000)
-    bad, lin_terms = [], []
+    bad, lin_terms, asm_terms, asm_cases = [], [], [], []
     for c, r in zip(cases, impl):
         if "err" in r:
             if "ZeroDivision" in r["err"] or "divide" in r["err"]:
@@ -81,6 +95,9 @@ def series_stream(rng, thorough, streams, viol, samples):
             if c["kind"].endswith("_frac") and "NaN or Inf" in r["err"]:
                 continue      # fractions of an inventory whose total has decayed to zero are undefined (0/0): outside the property
             bad.append((c, "series / plot raised " + r["err"])); continue
+        # the Coq model of the assembly loop, evaluated on the separate decays' read-outs, must give the returned columns
+        if sum(len(p) for p in r["points"]) <= 400:
+            asm_terms.append(asm_term(r["points"], r["cols"], r["data"])); asm_cases.append(c)
         # one column per nuclide of the decayed inventory, one row per time
         if r["cols"] != list(r["ref"]) or any(len(v) != len(r["times"]) for v in r["data"].values()):
             bad.append((c, "columns are not the nuclides of the decayed inventory / rows are not the time points")); continue
@@ -146,12 +163,15 @@ def series_stream(rng, thorough, streams, viol, samples):
             if c["scale"] == "linear" and (tp[0] != xmin or tp[-1] != float.fromhex(c["tmax"])):
                 bad.append((c, "plot time grid does not run from xmin to xmax"))
     badl, errs = Q.run_cases("linspace", PRE, "float * float * nat * list float", lin_terms, "chk", shard=100)
+    bada, errsa = Q.run_cases("assemble", PRE_ASM, "list (list (str * float)) * list (str * list float)", asm_terms, "chka", shard=40)
+    errs = errs + errsa
     kinds_seen = sorted({c["kind"] for c in cases})
     streams["series"] = {"cases": len(cases), "kinds": len(kinds_seen), "linear_grids_bitexact_in_coq": len(lin_terms), "grid_model_disagrees": len(badl),
-                         "impl_property_failures": len(bad), "coq_errors": len(errs), "hp": sum(1 for c in cases if c["cls"] == "InventoryHP"),
+                         "impl_property_failures": len(bad), "assembly_model_in_coq": len(asm_terms), "assembly_model_disagrees": len(bada), "coq_errors": len(errs), "hp": sum(1 for c in cases if c["cls"] == "InventoryHP"),
                          "what": "decay_time_series / _pandas / plot (captured decay_graph arguments) for the 47 read-out kinds x {linear, log}: values bit-identical "
                                  "to separate decays at each time, columns = decayed inventory, grid (linear bit-exact vs the PrimFloat model of linspace; log: exponents on that grid, power within 2 ulp), "
                                  "explicit times verbatim, labels, curve order, y-limits; the lines actually drawn on the axes (labels, x, y bit-identical); "
+                                 "the columns also equal the Coq model of the defaultdict assembly loop (Model/SeriesAsm.v, theorems Props/C13b.v) evaluated on the separate decays' read-outs; "
                                  "a third of the requests on objects that already produced a series/plot and were then changed in place"}
     seen = set()
     for c, why in bad:
@@ -166,6 +186,11 @@ def series_stream(rng, thorough, streams, viol, samples):
     for i in badl[:2]:
         viol.append({"name": f"linspace-model-{i}", "found_input": False, "key": f"linspace-model:{i}",
                      "payload": {"broken": "PrimFloat model of the linear time grid and the implementation disagree", "case": lin_terms[i][:300]}})
+    for i in bada[:2]:
+        if not any(asm_cases[i] is c for c, _ in bad):
+            viol.append({"name": f"assemble-model-{i}", "found_input": True, "key": f"assemble-model:{asm_cases[i]['kind']}",
+                         "payload": {"fails": "the columns returned by decay_time_series differ from the proved assembly (Model/SeriesAsm.v assemble) of the separate decays' read-outs",
+                                     "input": asm_cases[i], "entry": "decay_time_series"}})
     if errs:
         viol.append({"name": "series-coq", "found_input": False, "key": "series-coq", "payload": {"broken": "Coq evaluation failed", "errors": errs[:2]}})
     samples.append({"case": {k: v for k, v in cases[0].items() if k != "contents"}, "times": impl[0].get("times")})
